@@ -89,3 +89,17 @@ VARIANTS += [
          old="        completed_trials = study.get_trials(deepcopy=False, states=(TrialState.COMPLETE,))\n        n_trials = len(completed_trials)\n",
          new="        all_trials = study.get_trials(deepcopy=False)\n        completed_trials = [t for t in all_trials if t.state == TrialState.COMPLETE]\n        n_trials = len(completed_trials)\n"),
 ]
+
+PAT16 = "optuna/pruners/_patient.py"
+SH16 = "optuna/pruners/_successive_halving.py"
+VARIANTS += [
+    dict(id="c16-patience-window-by-step-number", prop="C16", file=PAT16, expect="R16.2",
+         edits=[dict(file=PAT16, old="        steps_before_patience = steps[: -self._patience - 1]\n", new="        window_start = int(np.searchsorted(steps, step - self._patience))\n        steps_before_patience = steps[:window_start]\n"),
+                dict(file=PAT16, old="        steps_after_patience = steps[-self._patience - 1 :]\n", new="        steps_after_patience = steps[window_start:]\n")]),
+    dict(id="c16-sha-remembers-direction", prop="C16", file=SH16, expect="R16.2",
+         old="            if not _is_trial_promotable_to_next_rung(\n",
+         new="            self._direction = study.direction\n            if not _is_trial_promotable_to_next_rung(\n"),
+    dict(id="c16-neutral-patience-window-parenthesised", prop="C16", file=PAT16, expect=None,
+         edits=[dict(file=PAT16, old="        steps_before_patience = steps[: -self._patience - 1]\n", new="        steps_before_patience = steps[: -(self._patience + 1)]\n"),
+                dict(file=PAT16, old="        steps_after_patience = steps[-self._patience - 1 :]\n", new="        steps_after_patience = steps[-(self._patience + 1) :]\n")]),
+]
